@@ -150,9 +150,10 @@ def replace_ref(text, oldvalue, newvalue="n/a"):
         else:
             c1 = match.group("c1")
             c2 = match.group("c2")
-            if c1:
+            # Drop ONE of the two separating commas.  c1/c2 may also be blanks only (no comma to drop there).
+            if "," in c1:
                 c1 = ""
-            elif c2:
+            elif "," in c2:
                 c2 = ""
             output = c1 + c2
 
